@@ -22,6 +22,7 @@ func init() {
 			c11R3(c, "C11.R3")
 			c11R4(c, "C11.R4")
 			c11R5(c, "C11.R5")
+			ruleSecondMetaProbing(c, "C11.R10")
 			ruleChecksumAfterMutation(c, "C11.R7", 5) // "opening succeeds using the other meta page": the other page is valid only if every meta writer checksums after its last change
 			ruleMetaSlot(c, "C11.R8") // ... and only if commits alternate between the two slots (never overwrite the newest committed meta)
 			ruleTestedErrorsPropagate(c, "C11.R9", []string{rootPkg, commonPath}, 20, func(n string) bool {
